@@ -117,8 +117,11 @@ func (r *RoundRobin) Select(pool HostPool, request *http.Request) *UpstreamHost 
 	defer r.mutex.Unlock()
 	// Return next available host
 	for i := uint32(0); i < poolLen; i++ {
-		r.robin++
-		host := pool[r.robin%poolLen]
+		// keep the cursor reduced: when a free-running counter wraps
+		// around, its residues skip slots of a pool whose size is not
+		// a power of two
+		r.robin = (r.robin%poolLen + 1) % poolLen
+		host := pool[r.robin]
 		if host.Available() {
 			return host
 		}
